@@ -171,27 +171,71 @@ var quietLogger = golog.Logger("verif-c35")
 
 func exec(op string) (string, string) {
 	f := strings.Fields(op)
-	if len(f) != 8 || f[0] != "done" {
+	var specs [][]string
+	switch {
+	case len(f) == 8 && f[0] == "done":
+		specs = [][]string{f[2:8]}
+	case len(f) >= 8 && f[0] == "dones" && (len(f)-2)%6 == 0 && len(f) <= 2+6*8:
+		for i := 2; i < len(f); i += 6 {
+			specs = append(specs, f[i:i+6])
+		}
+	default:
 		return "bad-op", "bad"
 	}
 	operators, ok1 := parseSmall(f[1], 0, 1000, false)
-	included, ok2 := parseSmall(f[2], 0, 255, true)
-	message, ok3 := canon(f[3], 1<<40)
-	attempt, ok4 := canon(f[4], 1<<40)
-	timeoutBlock, ok5 := canon(f[5], 1<<40)
-	A, ok6 := parseMsgs(f[6])
-	B, ok7 := parseMsgs(f[7])
-	if !(ok1 && ok2 && ok3 && ok4 && ok5 && ok6 && ok7) || len(operators) > 255 || len(A)+len(B) > 400 {
+	if !ok1 || len(operators) > 255 {
 		return "bad-op", "bad"
 	}
-
+	for _, sp := range specs { // validate everything before running anything
+		_, ok2 := parseSmall(sp[0], 0, 255, true)
+		_, ok3 := canon(sp[1], 1<<40)
+		_, ok4 := canon(sp[2], 1<<40)
+		_, ok5 := canon(sp[3], 1<<40)
+		A, ok6 := parseMsgs(sp[4])
+		B, ok7 := parseMsgs(sp[5])
+		if !(ok2 && ok3 && ok4 && ok5 && ok6 && ok7) || len(A)+len(B) > 400 {
+			return "bad-op", "bad"
+		}
+	}
 	var addrs []chain.Address
 	for _, o := range operators {
 		addrs = append(addrs, chain.Address(string(opKey(int(o)))))
 	}
+	// ONE long-lived signingDoneCheck; listen() is called again for every attempt, as the signing
+	// retry loop does.
 	ch := &fakeChan{}
 	mv := group.NewMembershipValidator(quietLogger, addrs, fakeSigning{})
 	dc := tbtc.VerifC35NewDoneCheck(len(operators), ch, mv)
+	var outs []string
+	tagset := map[string]bool{}
+	var order []string
+	for _, sp := range specs {
+		o, t := runAttempt(dc, ch, operators, sp)
+		if strings.HasPrefix(o, "HANG") {
+			return o, "hang"
+		}
+		outs = append(outs, o)
+		for _, x := range strings.Split(t, "+") {
+			if x != "" && !tagset[x] {
+				tagset[x] = true
+				order = append(order, x)
+			}
+		}
+	}
+	if len(specs) > 1 {
+		order = append(order, "multiattempt")
+	}
+	return strings.Join(outs, ";"), strings.Join(order, "+")
+}
+
+// runAttempt: listen + deliveries + waitUntilAllDone of one attempt on the given check.
+func runAttempt(dc *tbtc.VerifC35DoneCheck, ch *fakeChan, operators []uint64, f []string) (string, string) {
+	included, _ := parseSmall(f[0], 0, 255, true)
+	message, _ := canon(f[1], 1<<40)
+	attempt, _ := canon(f[2], 1<<40)
+	timeoutBlock, _ := canon(f[3], 1<<40)
+	A, _ := parseMsgs(f[4])
+	B, _ := parseMsgs(f[5])
 
 	ctx, cancel := context.WithCancel(context.Background())
 	defer cancel()
@@ -533,8 +577,54 @@ func gen(r *hx.Rng, n int, tier string) []string {
 		}
 		A, B := all[:cut], all[cut:]
 		A2, B2 := A, B
-		ops = append(ops, fmt.Sprintf("done %s %s %d %d %d %s %s", hx.JoinInts(operators), hx.JoinInts(included),
-			message, attempt, timeoutBlock, joinMsgs(A2), joinMsgs(B2)))
+		// any message (also a disturbance) may go through the real signalDone
+		for k := range A2 {
+			if r.Chance(1, 8) {
+				A2[k].viaSignal = true
+			}
+		}
+		for k := range B2 {
+			if r.Chance(1, 8) {
+				B2[k].viaSignal = true
+			}
+		}
+		spec := fmt.Sprintf("%s %d %d %d %s %s", hx.JoinInts(included), message, attempt, timeoutBlock, joinMsgs(A2), joinMsgs(B2))
+		if i%3 == 2 {
+			// several attempts on one long-lived check: the next attempt has another member subset,
+			// attempt number and timeout; confirmations of the previous attempt are replayed into it
+			specs := []string{spec}
+			prev := append(append([]dmsg{}, A2...), B2...)
+			for a := 1; a <= r.Range(1, 3); a++ {
+				attempt2 := attempt + uint64(a)
+				timeout2 := timeoutBlock + uint64(100*a)
+				var inc2 []uint64
+				for _, p := range r.Perm(gs)[:r.Range(1, gs)] {
+					inc2 = append(inc2, uint64(p+1))
+				}
+				var ms []dmsg
+				skip := -1
+				if r.Chance(1, 2) {
+					skip = r.Intn(len(inc2))
+				}
+				for j, m := range inc2 {
+					if j == skip {
+						continue
+					}
+					ms = append(ms, dmsg{sender: int(m), op: int(operators[m-1]), message: message, attempt: attempt2, sig: sig,
+						endBl: uint64(r.Range(400, int(timeout2)))})
+				}
+				if r.Chance(1, 2) && len(prev) > 0 { // stale confirmations of the previous attempt
+					ms = append(ms, prev[r.Intn(len(prev))])
+				}
+				cut := r.Intn(len(ms) + 1)
+				specs = append(specs, fmt.Sprintf("%s %d %d %d %s %s", hx.JoinInts(inc2), message, attempt2, timeout2,
+					joinMsgs(ms[:cut]), joinMsgs(ms[cut:])))
+				prev = ms
+			}
+			ops = append(ops, fmt.Sprintf("dones %s %s", hx.JoinInts(operators), strings.Join(specs, " ")))
+			continue
+		}
+		ops = append(ops, fmt.Sprintf("done %s %s", hx.JoinInts(operators), spec))
 	}
 	return ops
 }
